@@ -13,11 +13,14 @@ LEVEL_TEXT = (
     "(single layer) resp. -2 (double / adjoint double layer) under x -> s x, k -> k / s; that every assembler "
     "integrand is built from these kernels, Jacobians, reference shape functions and element normals only; that the "
     "remap and offset tables make the singular rule independent of which local vertices are shared; that normal "
-    "multipliers are -1 exactly on swapped domains; that the edge sign rule is antisymmetric."
+    "multipliers are -1 exactly on swapped domains; that the edge sign rule is antisymmetric; that the geometry tables are "
+    "the defining dot/cross-product formulas of the vertex differences (hence rotation-covariant), invariant under "
+    "translation and homogeneous of the right degree under scaling (exact substitution in the symbolically evaluated "
+    "vectorised code)."
 )
-LEVEL_NOTE = "Not decided: the vectorised geometry code (_compute_geometric_quantities) and equality of assembled matrices as numbers."
-EXPLANATION = "rules K-SPEC, K-TRANSLATION, K-HOMOGENEITY, ASM-REGULAR/SINGULAR, REMAP-AFFINE, SING-OFFSETS, SING-SEGMENTS, ADJ-LAYOUT, NORMAL-MULT, RWG-SIGN"
-ASSUMPTIONS = ["geometry tables transform covariantly under rigid motions and scalings (vertex differences only; not decided here)"]
+LEVEL_NOTE = "Not decided: equality of assembled matrices as numbers (rounding); relabelling invariance of the data-dependent adjacency enumeration."
+EXPLANATION = "rules K-SPEC, K-TRANSLATION, K-HOMOGENEITY, ASM-REGULAR/SINGULAR, REMAP-AFFINE, SING-OFFSETS, SING-SEGMENTS, ADJ-LAYOUT, NORMAL-MULT, RWG-SIGN, GEOM-DEFS, GEOM-EQUIVARIANT"
+ASSUMPTIONS = ["dot and cross products are covariant under proper rotations (the rotation clause for the geometry follows from GEOM-DEFS by this fact)"]
 
 NK = K.NK
 
@@ -51,6 +54,30 @@ def run(ctx):
     c11.adjacency(ctx)
     spaces.normal_multipliers(ctx)
     spaces.rwg_sign_rule(ctx)
+    geometry(ctx)
+
+
+def geometry(ctx):
+    """The geometry tables are the defining formulas (dot / cross products of vertex differences: rotation-covariant by
+    construction) and transform exactly as stated under translations and scalings."""
+    import ast as _ast
+
+    from .. import geomq
+    from ..src import unparse as _unparse
+
+    c11.geometry(ctx)  # GEOM-DEFS: computed tables == definitions built from a = v1 - v0, b = v2 - v0 by dot and cross products only
+    r = ctx.rule("GEOM-EQUIVARIANT", "geometry tables: invariant under translation (centroids move along), homogeneous of the stated degree under scaling", 14)
+    m = ctx.repo.mod(c11.GRID)
+    fn = m.fn("Grid._compute_geometric_quantities")
+    props = {}
+    for qn, f in m.functions.items():
+        if qn.startswith("Grid.") and qn.count(".") == 1 and any(_unparse(d) == "property" for d in f.decorator_list):
+            rets = [s_ for s_ in f.body if isinstance(s_, _ast.Return)]
+            if len(rets) == 1 and isinstance(rets[0].value, _ast.Attribute) and _unparse(rets[0].value.value) == "self":
+                props[f.name] = rets[0].value.attr
+    got = geomq.GeomEval(fn, props).run()
+    for desc, ok in geomq.equivariance(got):
+        r.check(ok, desc, c11.GRID, fn.name, fn.lineno, "geometry " + desc, "the computed table does not behave as stated: " + desc)
 
 
 def homogeneous(spec, s, deg):
